@@ -170,27 +170,34 @@ def count_and_sum_shapes(tier):
 
 
 def idle_shapes(tier):
+    """idle time = time between the first start and the last end of the intervals the resource is assigned to,
+    minus the time it is busy; 0 with fewer than two assignments"""
     out = []
-    for kinds in [("fixed", "fixed"), ("fixed", "var", "fixed")]:
-        def build(P, kinds=kinds):
+    cases = [(("fixed", "fixed"), (False, False), "worker"), (("fixed", "var", "fixed"), (False, False, False), "worker"),
+             (("fixed",), (False,), "worker"), (("zero", "fixed"), (False, False), "worker"), (("zero", "zero", "var"), (False, False, False), "worker"),
+             (("fixed", "var"), (True, True), "worker"), (("fixed", "zero", "fixed"), (True, False, True), "worker"),
+             (("fixed", "var"), (False, False), "select"), (("zero", "fixed", "fixed"), (False, True, False), "select")]
+    for kinds, m, how in cases:
+        def build(P, kinds=kinds, m=m, how=how):
             pb, hv = new_problem(P, False)
-            tis = _tasks(P, kinds, tuple([False] * len(kinds)))
-            res, busy, named = _assign(tis, "worker")
+            tis = _tasks(P, kinds, m)
+            res, busy, named = _assign(tis, how)
             ind = ps.IndicatorResourceIdle(resource=res)
-            return Ctx(problem=pb, tis=tis, busy=busy, ind=ind)
+            return Ctx(problem=pb, tis=tis, busy=busy, ind=ind, named=named)
 
         def defs(ctx):
             v = ctx.ind._indicator_variable
             ivs = [iv for _, iv in ctx.busy]
-            first = ivs[0][0]
-            last = ivs[0][1]
-            for bs, be in ivs[1:]:
-                first = zmin(first, bs)
-                last = zmax(last, be)
-            guard = And([be > bs for bs, be in ivs])
-            return [("idle_time_between_tasks", guard, v == (last - first) - Sum([be - bs for bs, be in ivs]))]
+            assigned = [And(bs >= 0, be >= 0) for bs, be in ivs]
+            first, last = z3.Int("spec_first_start"), z3.Int("spec_last_end")
+            some = Or(assigned)
+            define = And(And([Implies(a, And(first <= bs, last >= be)) for a, (bs, be) in zip(assigned, ivs)]),
+                         Or([And(a, first == bs) for a, (bs, be) in zip(assigned, ivs)]),
+                         Or([And(a, last == be) for a, (bs, be) in zip(assigned, ivs)]))
+            return [("idle_time_between_tasks", And(some, define), v == (last - first) - Sum([z3.If(a, be - bs, 0) for a, (bs, be) in zip(assigned, ivs)])),
+                    ] + ([("no_assignment_no_idle_time", Not(some), v == 0)] if any(t.optional for t in ctx.tis) and all(t.optional for t in ctx.tis) or ctx.named else [])
 
-        out.append(shape(f"resource_idle/{'+'.join(kinds)}", build, defs))
+        out.append(shape(f"resource_idle/{how}/{'+'.join(kinds)}/{_mask_tag(m)}", build, defs))
     return out
 
 
@@ -244,7 +251,41 @@ def cost_shapes(tier):
             return [("linear_cost_integral_within_rounding", True, And(2 * v - twice < 2, twice - 2 * v < 2))]
 
         out.append(shape(f"cost_linear/slope_{slope}_icpt_{icpt}", build, defs))
+    # polynomial cost C(x) = a_n x^n + ... + a_0 (coefficients listed from a_n down to a_0): concrete coefficients,
+    # symbolic dates; the indicator is the documented trapezoid of C over each busy interval
+    polys = [(1, 0, 0), (2, 1, 3), (0, 0, 5), (1, 2), (4,), (1, 0, 2, 1)]
+    if tier != "quick":
+        polys += [c for n in (1, 2, 3) for c in itertools.product((0, 1, 3), repeat=n) if c not in polys] + [(2, 0, 0, 0), (1, 1, 1, 1)]
+    for coeffs in polys:
+        def build(P, coeffs=coeffs):
+            pb, hv = new_problem(P, False)
+            tis = _tasks(P, ("fixed", "var"), (False, True))
+            w = ps.Worker(name="W", cost=ps.PolynomialFunction(coefficients=list(coeffs)))
+            for t in tis:
+                t.obj.add_required_resource(w)
+            ind = ps.IndicatorResourceCost(list_of_resources=[w])
+            x = z3.Int("spec_x")
+            return Ctx(problem=pb, tis=tis, w=w, ind=ind, coeffs=coeffs, fx=w.cost(x), x=x)
+
+        def defs(ctx):
+            v = ctx.ind._indicator_variable
+            n = len(ctx.coeffs) - 1
+
+            def C(x):
+                return Sum([c * _pow(x, n - i) for i, c in enumerate(ctx.coeffs)])
+            twice = Sum([(C(bs) + C(be)) * (be - bs) for bs, be in ctx.w._busy_intervals.values()])
+            return [("function_value_is_the_polynomial", True, to_z3(ctx.fx) == C(ctx.x)),
+                    ("polynomial_cost_trapezoid_within_rounding", True, And(2 * v - twice < 2, twice - 2 * v < 2))]
+
+        out.append(shape(f"cost_polynomial/{'_'.join(map(str, coeffs))}", build, defs))
     return out
+
+
+def _pow(x, k):
+    r = z3.IntVal(1)
+    for _ in range(k):
+        r = r * x
+    return r
 
 
 def buffer_and_expression_shapes(tier):
